@@ -284,6 +284,8 @@ def to_trace(sc, truth, events):
             evs.append({"ev": "call", "batch": [[x[0], x[1]] for x in e["batch"]], "multi": e["multi"], "budgets": [int(round(1000 * (x or 0))) for x in b]})
         elif k == "dl":
             evs.append({"ev": "dl", "ms": e["ms"]})
+        elif k == "instance":
+            evs.append({"ev": "instance", "system": e["system"], "backend": e["backend"], "cls": e["cls"]})
         elif k == "prep":
             evs.append({"ev": "prep", "outcome": e["outcome"], "ptime": int(round(e.get("ptime_ms", 0)))})
         elif k == "answer":
